@@ -295,7 +295,7 @@ def build():
     R.add("inv[stop_application interleaved with another application's allocations]", kind="lia", samples=40, max_paths=400)(stop_interleaved)
 
     # ------------------------------------------------------------- short histories, exhaustively (bounded stand-in)
-    def histories(ctx):
+    def histories(ctx, first=None):
         """every sequence of up to L operations (qalloc / qfree by two applications, keep-responses delivering a physical qubit
         that is unused at that moment) on a fresh real executor; the representation invariant is checked after every step.
         State that an implementation keeps beside the unit modules (caches, free lists) is exercised by construction."""
@@ -303,28 +303,55 @@ def build():
         from netqasm.backend.executor import Executor as _E
         L = 5 if ctx.tier == "thorough" else 4
         ops = [("qalloc", a, v) for a in (0, 1) for v in (0, 1)] + [("qfree", a, v) for a in (0, 1) for v in (0, 1)] + \
-              [("keep", a, v, p) for a in (0, 1) for v in (0, 1) for p in (0, 1, 2)] + \
-              [("req", a, v) for a in (0, 1) for v in (0, 1)] + [("resp", a, p) for a in (0, 1) for p in (3, 4)]
+              [("keep", a, v, p) for a in (0, 1) for v in (0, 1) for p in (0, 2)] + \
+              [("req", a, v) for a in (0, 1) for v in (0, 1)] + [("resp", a, p) for a in (0, 1) for p in (3, 4)] + \
+              [("reserve",)] + [("deliver", a, v) for a in (0, 1) for v in (0, 1)] + [("stop", a) for a in (0, 1)]
+        # "reserve": the network stack reserves a physical qubit for a pair in flight by calling _get_unused_physical_qubit() (which marks it in use);
+        # "deliver": the pair generated on the reserved qubit is delivered to virtual qubit v of application a;  "stop": application a is stopped
+        # (its outstanding harness requests are withdrawn) and the same id is registered again
         # "req": application a executes a recv_epr for one pair into virtual qubit v;  "resp": the link layer delivers a keep pair for
         # application a's purpose on a physical qubit that is unused at that moment -- through the REAL _handle_epr_response, i.e. through the
         # list of pending responses (a response may arrive before its request and wait there)
         given = ctx.given.get("history") if getattr(ctx, "given", None) else None
-        seqs = [[tuple(int(x) if x.lstrip("-").isdigit() else x for x in o.split(":")) for o in given.split(",")]] if given else itertools.product(ops, repeat=L)
-        n = 0
-        for seq in seqs:
-            n += 1
+        seqs = [[tuple(int(x) if x.lstrip("-").isdigit() else x for x in o.split(":")) for o in given.split(",")]] if given else ((first,) + rest for rest in itertools.product(ops, repeat=L - 1))
+        from netqasm.qlink_compat import ReturnType as _RT
+
+        def run_hist(seq):
+            """-> (hard violation or None, index of the first step after which a pending response's physical qubit is also mapped, or None)"""
             ex = new_executor(ctx, apps=(0, 1), um_sizes={0: 2, 1: 2})
             sids = {0: SID, 1: SID_OTHER}
             nreq = {0: 0, 1: 0}
-            from netqasm.qlink_compat import ReturnType as _RT
             ex._subroutines[SID] = Subroutine(app_id=0)
             ex._subroutines[SID_OTHER] = Subroutine(app_id=1)
-            bad = None
+            shared = None
+            reserved = None
             for k, op in enumerate(seq):
                 um = {a: list(ex._qubit_unit_modules[a]) for a in (0, 1)}
                 used = set(ex._used_physical_qubit_addresses)
                 try:
-                    if op[0] == "qalloc":
+                    if op[0] == "reserve":
+                        if reserved is not None:
+                            continue
+                        reserved = ex._get_unused_physical_qubit()
+                        if reserved in used or reserved in [r.logical_qubit_id for r in ex._pending_epr_responses]:
+                            return (k, f"physical qubit {reserved} was reserved for a pair in flight although it is in use (in use {sorted(used)})"), shared
+                        continue
+                    elif op[0] == "deliver":
+                        if reserved is None:
+                            continue
+                        data = EprCmdData(subroutine_id=sids[op[1]], ent_results_array_address=0, q_array_address=5, request=None, tot_pairs=1, pairs_left=1)
+                        ex._app_arrays[op[1]]._arrays[5] = [op[2]]
+                        if ex._handle_epr_ok_k_response(data, LinkLayerOKTypeK(logical_qubit_id=reserved, purpose_id=0, remote_node_id=1, bell_state=BellState.PHI_PLUS), 0):
+                            reserved = None
+                        else:
+                            continue
+                    elif op[0] == "stop":
+                        a = op[1]
+                        ex._epr_recv_requests[(1, a)].clear()
+                        list(ex.stop_application(a) or [])
+                        ex.init_new_application(a, 2)
+                        ex._subroutines[sids[a]] = Subroutine(app_id=a)
+                    elif op[0] == "qalloc":
                         ex._allocate_physical_qubit(sids[op[1]], op[2])
                     elif op[0] == "qfree":
                         list(ex._free_physical_qubit(sids[op[1]], op[2]) or [])
@@ -344,27 +371,49 @@ def build():
                         ex._handle_epr_response(LinkLayerOKTypeK(type=_RT.OK_K, logical_qubit_id=op[2], directionality_flag=1, purpose_id=op[1], remote_node_id=1,
                                                                  bell_state=BellState.PHI_PLUS))
                     else:
-                        if op[3] in used:
+                        if op[3] in used or op[3] in {r.logical_qubit_id for r in ex._pending_epr_responses}:
                             continue        # the link layer only delivers qubits that are free at that moment
                         data = EprCmdData(subroutine_id=sids[op[1]], ent_results_array_address=0, q_array_address=5, request=None, tot_pairs=1, pairs_left=1)
                         ex._app_arrays[op[1]]._arrays[5] = [op[2]]
                         ex._handle_epr_ok_k_response(data, LinkLayerOKTypeK(logical_qubit_id=op[3], purpose_id=0, remote_node_id=1, bell_state=BellState.PHI_PLUS), 0)
-                except Exception:
+                except Exception as e:
+                    if op[0] == "stop":
+                        return (k, f"stopping application {op[1]} and registering the id again failed: {type(e).__name__}: {e}"), shared
                     # a refused operation leaves the qubit bookkeeping as it was
-                    if {a: list(ex._qubit_unit_modules[a]) for a in (0, 1)} != um or set(ex._used_physical_qubit_addresses) != used:
-                        bad = (k, "a refused operation changed the bookkeeping")
-                        break
+                    if {a: list(ex._qubit_unit_modules.get(a, ())) for a in (0, 1)} != um or set(ex._used_physical_qubit_addresses) != used:
+                        return (k, "a refused operation changed the bookkeeping"), shared
                 mapped = [p for a in (0, 1) for p in ex._qubit_unit_modules[a] if p is not None]
-                if len(ex._pending_epr_responses) != len({id(r) for r in ex._pending_epr_responses}) or \
-                        any(r.logical_qubit_id in mapped for r in ex._pending_epr_responses):
-                    bad = (k, f"a response that was handled is still pending (it will be applied again): pending={[r.logical_qubit_id for r in ex._pending_epr_responses]} mapped={mapped}")
-                    break
                 if len(set(mapped)) != len(mapped):
-                    bad = (k, f"two virtual qubits share a physical qubit: {ex._qubit_unit_modules}")
-                    break
-                if set(mapped) != set(ex._used_physical_qubit_addresses):
-                    bad = (k, f"in-use set {sorted(ex._used_physical_qubit_addresses)} != mapped set {sorted(mapped)}")
-                    break
+                    return (k, f"two virtual qubits share a physical qubit: {ex._qubit_unit_modules}"), shared
+                inflight = set() if reserved is None else {reserved}
+                if set(mapped) | inflight != set(ex._used_physical_qubit_addresses) or (inflight & set(mapped)):
+                    return (k, f"in-use set {sorted(ex._used_physical_qubit_addresses)} != mapped set {sorted(mapped)}" +
+                            (f" + qubit {reserved} reserved for a pair in flight" if inflight else "")), shared
+                if shared is None and (len(ex._pending_epr_responses) != len({id(r) for r in ex._pending_epr_responses}) or
+                                       any(r.logical_qubit_id in mapped for r in ex._pending_epr_responses)):
+                    shared = k
+            return None, shared
+
+        # A physical qubit that is mapped AND still held by a waiting response (a handled response that was not removed, or the qubit of a waiting
+        # pair handed out by qalloc) is not yet a violation of the property; it is reported only with a continuation of the history (frees, allocations
+        # and a request, <= 3 steps) after which two virtual qubits share a physical qubit or the in-use set differs from the mapped set.
+        cont_ops = [o for o in ops if o[0] in ("qfree", "qalloc", "req")]       # (continuations never reserve: a reservation open at the cut is simply never delivered)
+        examined = set()
+        n = 0
+        for seq in seqs:
+            n += 1
+            bad, shared = run_hist(seq)
+            if bad is None and shared is not None and tuple(seq[:shared + 1]) not in examined and len(examined) < 40:
+                examined.add(tuple(seq[:shared + 1]))
+                for m in (1, 2, 3):
+                    for cont in itertools.product(cont_ops, repeat=m):
+                        full = list(seq[:shared + 1]) + list(cont)
+                        bad, _ = run_hist(full)
+                        if bad is not None:
+                            seq = full
+                            break
+                    if bad is not None:
+                        break
             if bad:
                 ctx.used["history"] = ",".join(":".join(str(x) for x in o) for o in seq)
                 ctx.used["why"] = f"after step {bad[0]}: {bad[1]}"
@@ -372,8 +421,15 @@ def build():
                 return
         ctx.used["histories"] = n
         ctx.check("the representation invariant holds after every step of every short history", True)
-    R.add("inv[all short histories of qalloc / qfree / keep-response]", kind="bounded", bounded_only=True, samples=1,
-          note="exhaustive over all sequences of 4 (quick) / 5 (thorough) operations from 28 (qalloc, qfree, direct keep delivery, recv request, response through the pending list) on 2 applications x 2 virtual qubits, real executor, native")(histories)
+    _HOPS = [("qalloc", a, v) for a in (0, 1) for v in (0, 1)] + [("qfree", a, v) for a in (0, 1) for v in (0, 1)] + \
+            [("keep", a, v, p) for a in (0, 1) for v in (0, 1) for p in (0, 2)] + \
+            [("req", a, v) for a in (0, 1) for v in (0, 1)] + [("resp", a, p) for a in (0, 1) for p in (3, 4)] + \
+            [("reserve",)] + [("deliver", a, v) for a in (0, 1) for v in (0, 1)] + [("stop", a) for a in (0, 1)]
+    for _first in _HOPS:
+        R.add("inv[all short histories of qalloc / qfree / keep-response][starting with %s]" % ":".join(str(x) for x in _first), kind="bounded", bounded_only=True, samples=1,
+              note="exhaustive over all sequences of 4 (quick) / 5 (thorough) operations from 31 (qalloc, qfree, direct keep delivery, recv request, response through "
+                   "the pending list, reservation of a qubit for a pair in flight and its delivery, stop + re-registration of an application) on 2 applications x 2 "
+                   "virtual qubits that start with this operation; real executor, native")(lambda ctx, _f=_first: histories(ctx, _f))
 
     def double_registration(ctx):
         ex = new_executor(ctx, apps=(0,))
